@@ -20,6 +20,7 @@ pub mod c12;
 pub mod c13;
 pub mod c14;
 pub mod c15;
+pub mod c16;
 
 pub struct Prop {
     pub id: &'static str,
@@ -53,6 +54,7 @@ pub fn lookup(id: &str) -> Option<Prop> {
         "C13" => Prop { id: "C13", run: c13::run, rule: c13::rule, exhaustive: |_| Some(true), assumptions: no_assumptions },
         "C14" => Prop { id: "C14", run: c14::run, rule: c14::rule, exhaustive: none, assumptions: no_assumptions },
         "C15" => Prop { id: "C15", run: c15::run, rule: c15::rule, exhaustive: none, assumptions: no_assumptions },
+        "C16" => Prop { id: "C16", run: c16::run, rule: c16::rule, exhaustive: none, assumptions: no_assumptions },
         _ => return None,
     })
 }
@@ -69,6 +71,9 @@ pub fn replay(_id: &str, case: &Value) -> Option<Result<(), String>> {
         return Some(r);
     }
     if let Some(r) = c15::replay(case) {
+        return Some(r);
+    }
+    if let Some(r) = c16::replay(case) {
         return Some(r);
     }
     if let Some(r) = c12::replay(case) {
